@@ -11,6 +11,9 @@ func (oracleC14) Invariant(x *OCtx, v *View, m *Mon) []Violation {
 	var out []Violation
 	for _, br := range v.Bindings {
 		b := br.B
+		if x.Sc.isModuleService(b.ServiceName) {
+			continue // installed by the host chain at genesis with no deposit, not created or changed by a message (messages for it are refused: C05)
+		}
 		min := minDepositOf(v, b.Pricing)
 		dep := coinAmt(b.Deposit)
 		if b.Available {
